@@ -1,2 +1,15 @@
-// Package regx — see /verif/DESIGN.md.
+// Package regx holds the registry-sequence engine: the runtime monitors of
+//
+//   - C17 "the collection is an exact, atomic registry and Build takes a snapshot": operation
+//     sequences on a real godi.Collection are mirrored on a reference registry (ref.go); after
+//     every step the four query views, a provider built from the collection (which constructors
+//     ran, which constructor produced every identity of the universe, group order) and every
+//     provider retained from an earlier Build are compared with it (c17.go, observe.go);
+//   - C20 "modules are transparent groupings of registration calls": random module trees are
+//     applied through AddModules to one collection and, flattened, through direct calls to a
+//     twin; views, providers and the ModuleError chain of the first failing entry are compared
+//     (c20.go).
+//
+// ops.go renders operations as godi calls, gen.go is the seeded, state-aware generator.
+// See /verif/DESIGN.md §3 (C17, C20).
 package regx
